@@ -158,6 +158,13 @@ def _api():
     def f_genome_get_track(b, x):
         return b.Genome.from_dict({"chr1": 10 * len(x)}).get_track(x).get_data()
 
+    def dna_ascii_mixed_case(b, table, fmt):
+        # sequences held as plain ASCII text (not an alphabet encoding) with lower-case letters among them
+        if "sequence" not in fmt.field_names() or fmt.name == "sam":
+            return None
+        seqs = [str(x) for x in plain(table.sequence)]
+        return b.as_encoded_array(["".join(ch.lower() if (i + j) % 2 else ch for j, ch in enumerate(q)) for i, q in enumerate(seqs)])
+
     def genotype_rows_matrix(b, table, fmt):
         # the same rows as a C-contiguous 2-D character matrix (not a ragged array): ravel() of it is a view
         n = call(len, table)
@@ -444,6 +451,7 @@ def _api():
             ("run_length_array_from_bedgraph_nan", bedgraph_gapless_nan, f_rla_from_bedgraph),
             ("geometry_get_track_nan", bedgraph_gapless_nan, f_geometry_get_track),
             ("genome_get_track_nan", bedgraph_gapless_nan, f_genome_get_track),
+            ("get_reverse_complement_ascii_mixed_case", dna_ascii_mixed_case, f_revcomp),
             ("sort_intervals", intervals, f_sort), ("merge_intervals", intervals, f_merge),
             ("get_boolean_mask", intervals, f_mask), ("get_pileup", intervals, f_pileup),
             ("get_reverse_complement", dna, f_revcomp), ("get_kmers", dna, f_kmers),
